@@ -9,8 +9,8 @@ CHECKS = {
  "C20": ("E4", "model_checking", "stateless exploration of all interleavings of the real Updater thread and the real CLI callback under a controlled line-level scheduler (preemption-bounded, then unbounded) x enumerated server behaviours",
          "The real threads are run one source line at a time under a baton; every schedule up to the preemption bound (thorough: all schedules) is executed for 17 server behaviours (the arrival of the answer and the expiry of the join timeout are scheduler-controlled environment events with a virtual clock) and 4-5 commands; exit code, stdout, virtual blocking time and deadlock freedom are judged per execution, and a separate free-running pass with real threads measures real stall time.", "4 C20"),
  "C13": ("E4", "model_checking", "exhaustive enumeration of mount locations x invocation forms and of all directory-listing permutations (os.listdir/os.scandir seam) on the real code, byte comparison with a baseline",
-         "The same tree is sealed under five kinds of ancestor folders (incl. names matching ignore patterns) x four invocation forms, and under every combination of permutations of every directory listing; the produced ascmhl folders must be byte-identical to the baseline and the baseline's sealed tree must verify at every location.", "4 C13"),
- "C15": ("E3", "fault_enumeration", "exhaustive crash-point enumeration on the logged write history of the real create (every log prefix, torn last write), recovery by the real commands",
+         "The same tree is sealed under nine kinds of ancestor folders (incl. names matching ignore patterns, glob / format characters, a deep location) x seven invocation forms (absolute, trailing separator, relative, '.', through a symbolic link, <link>/../<name>), and under every combination of permutations of every directory listing; the produced ascmhl folders must be byte-identical to the baseline and the baseline's sealed tree must verify at every location.", "4 C13"),
+ "C15": ("E3", "fault_enumeration", "exhaustive crash-point enumeration on the logged write history of the real create (every log prefix, torn last write, lost buffers, two kills in a row) plus an interruption from inside (KeyboardInterrupt) at every logged operation, recovery by the real commands",
          "One uninterrupted create per scenario is executed with a write-logging seam (cross-checked against audit events and by replaying the log); every prefix of the log, with the last write torn at several (thorough: all) positions, is materialised as a crash state and recovered with info, verify and create; old manifests, chain entries, visibility of partial files, exit codes (must equal the answer before or after the completed run) and the C06 relation after recovery are judged.", "4 C15"),
  "C05": ("E3", "fault_enumeration", "exhaustive enumeration of tamper faults (every manifest x edit kind x position) x every history-reading command on the real code",
          "For flat and nested (2 and 3 level) histories every manifest listed in any chain is flipped / grown / shrunk / truncated at enumerated positions (thorough: a bit flip at every byte), gets a newline appended or is removed, and every chain file is removed; each of 12 history-reading commands must answer with exactly 31 / 33 / 32 and leave a byte- and metadata-identical tree.", "4 C05"),
@@ -27,7 +27,7 @@ CHECKS = {
  "C17": ("E1", "model_checking", "bounded-exhaustive exploration: sealed base x every rename assignment x command sequences on the real code",
          "For a sealed tree every assignment of each file to {stay, rename, move, move+rename, (move into a new folder)} is applied, with one/two-generation and nested histories, equal and different formats, an unrelated new file, and chained renames over 2-3 generations; plain create, create -dr, the follow-up verify/diff/create and verify after altering each renamed file are executed and judged.", "4 C17"),
  "C12": ("E1", "model_checking", "explicit-state BFS of the real file-system state graph with audit-event observation, own pattern matcher + reference directory hashes as oracle",
-         "Every sequence up to the bound of creates with every pattern set of the alphabet {x.tmp, *.tmp, sub/, sub} (via -i, repeated -i, -ii), create -sf of folders, creates at a nested root, edits of ignored/matching files and verify / verify -dh / diff with and without extra patterns is executed; ignored paths must be in no new record, never opened, in no directory hash and never reported, and pattern lists may only grow and must propagate to nested generations.", "4 C12"),
+         "Every sequence up to the bound of creates with every pattern set of the alphabet (plain names, globs, directory-only, anchored, negated, case variants, backslash escapes, a pattern with a blank; via -i, repeated -i, -ii), create -sf of folders, creates at a nested root, edits of ignored/matching files and verify / verify -dh / diff with and without extra patterns is executed; ignored paths must be in no new record, never opened, in no directory hash and never reported, and pattern lists may only grow and must propagate to nested generations.", "4 C12"),
  "C14": ("E1", "model_checking", "command matrix x state matrix plus whole BFS explorations on the real code, full metadata snapshot + audit-event oracle",
          "Every command form is run on every kind of state (no history, flat, nested, tampered, missing/altered/new file) with cwd and TMPDIR pointing at snapshotted empty directories, and the same oracle runs as an invariant over every transition of the C06 and C08 explorations: read-only commands change nothing and issue no write-type operation, flatten changes only its destination, create changes only new manifests / chain files / new ascmhl folders of in-scope histories.", "4 C14"),
  "C11": ("E1", "model_checking", "explicit-state BFS over the option matrix of create/flatten on the real code, XSD validation of every written file as invariant",
